@@ -230,3 +230,15 @@ pub assume_specification<'a>[ std::path::Path::display ](p: &'a std::path::Path)
 /// formatting a `std::path::Display` has no precondition (vstd's `fmt_req`)
 pub broadcast axiom fn ax_fmt_req_all_path_display<'a>()
     ensures #[trigger] vstd::std_specs::fmt::fmt_req_all::<std::path::Display<'a>>();
+
+// ---- PathBuf construction used by reopen_outputfile -------------------------------------------------
+pub uninterp spec fn path_with_extension(p: Seq<char>, ext: Seq<char>) -> Seq<char>;
+#[verifier::allow(undeclared_external_trait)]
+pub assume_specification<'a, T: ?Sized + AsRef<std::ffi::OsStr>>[ <std::path::PathBuf as From<&'a T>>::from ](p: &T) -> (r: std::path::PathBuf)
+    ensures pathbuf_view(&r) == aspath::<&T>(p);
+#[verifier::allow(undeclared_external_trait)]
+pub assume_specification<S: AsRef<std::ffi::OsStr>>[ std::path::PathBuf::set_extension ](p: &mut std::path::PathBuf, ext: S) -> (r: bool)
+    ensures pathbuf_view(final(p)) == path_with_extension(pathbuf_view(old(p)), asosstr::<S>(ext));
+pub uninterp spec fn asosstr<S>(s: S) -> Seq<char>;
+pub broadcast axiom fn ax_asosstr_str(s: &str)
+    ensures #[trigger] asosstr::<&str>(s) == s@;
